@@ -8,8 +8,8 @@ from core import corr, oracle, InfraError
 from lib.probes import Probe
 
 PID = "C16"
-GEN = []
-LEAN_MODULES = ["YowsupVerif.Props.C16"]
+GEN = ["logincfg"]
+LEAN_MODULES = ["YowsupVerif.Props.C16", "YowsupVerif.Props.C16Login"]
 RULE = ("event histories (4..18 events) over {connect request (interface.connect / CONNECT event), dispatcher connected, socket error / "
         "peer close, disconnect request (only while a connection is up or being established), success, failure, stream error (conflict, ack, "
         "xml-not-well-formed, unknown kind), ping tick, pong (answering / stale id), loop iteration, application send} x options {reconnect "
